@@ -62,6 +62,7 @@ class Ctx:
         self.vtime_us += rec.get('vtime_us', 0)
         self.events += rec.get('events', 0)
         self.switches += rec.get('switches', 0)
+        self.probes['line-level pre-emptions'] = self.probes.get('line-level pre-emptions', 0) + rec.get('preemptions', 0)
         for kk, v in rec.get('faults_fired', {}).items():
             self.faults[kk] = self.faults.get(kk, 0) + v
         for kk, v in rec.get('probes', {}).items():
